@@ -92,6 +92,43 @@ var (
 	numZeroBuf = []byte{'0'}
 )
 
+// isNonIntegerRest reports whether c continues a number literal with a fraction or an exponent.
+func isNonIntegerRest(c byte) bool {
+	return c == '.' || c == 'e' || c == 'E'
+}
+
+// nonIntegerEnd returns the end of the number literal whose integer part ends at cursor.
+func nonIntegerEnd(b unsafe.Pointer, cursor int64) int64 {
+	for floatTable[char(b, cursor)] {
+		cursor++
+	}
+	return cursor
+}
+
+// nonIntegerRest consumes the fraction and exponent of the number literal whose integer part
+// ends at the cursor and reports whether there was one.
+func (s *Stream) nonIntegerRest() bool {
+	if s.char() == nul {
+		s.read()
+	}
+	if !isNonIntegerRest(s.char()) {
+		return false
+	}
+	for {
+		s.cursor++
+		if floatTable[s.char()] {
+			continue
+		} else if s.char() == nul {
+			if s.read() {
+				s.cursor-- // for retry current character
+				continue
+			}
+		}
+		break
+	}
+	return true
+}
+
 func (d *intDecoder) decodeStreamByte(s *Stream) ([]byte, error) {
 	for {
 		switch s.char() {
@@ -116,9 +153,16 @@ func (d *intDecoder) decodeStreamByte(s *Stream) ([]byte, error) {
 			if len(num) < 2 {
 				goto ERROR
 			}
+			if s.nonIntegerRest() {
+				return nil, d.typeError(s.buf[start:s.cursor], s.totalOffset())
+			}
 			return num, nil
 		case '0':
+			start := s.cursor
 			s.cursor++
+			if s.nonIntegerRest() {
+				return nil, d.typeError(s.buf[start:s.cursor], s.totalOffset())
+			}
 			return numZeroBuf, nil
 		case '1', '2', '3', '4', '5', '6', '7', '8', '9':
 			start := s.cursor
@@ -133,6 +177,9 @@ func (d *intDecoder) decodeStreamByte(s *Stream) ([]byte, error) {
 					}
 				}
 				break
+			}
+			if s.nonIntegerRest() {
+				return nil, d.typeError(s.buf[start:s.cursor], s.totalOffset())
 			}
 			num := s.buf[start:s.cursor]
 			return num, nil
@@ -162,13 +209,22 @@ func (d *intDecoder) decodeByte(buf []byte, cursor int64) ([]byte, int64, error)
 			cursor++
 			continue
 		case '0':
+			start := cursor
 			cursor++
+			if isNonIntegerRest(char(b, cursor)) {
+				end := nonIntegerEnd(b, cursor)
+				return nil, 0, d.typeError(buf[start:end], end)
+			}
 			return numZeroBuf, cursor, nil
 		case '-', '1', '2', '3', '4', '5', '6', '7', '8', '9':
 			start := cursor
 			cursor++
 			for numTable[char(b, cursor)] {
 				cursor++
+			}
+			if isNonIntegerRest(char(b, cursor)) {
+				end := nonIntegerEnd(b, cursor)
+				return nil, 0, d.typeError(buf[start:end], end)
 			}
 			num := buf[start:cursor]
 			return num, cursor, nil
